@@ -301,9 +301,8 @@ theorem C16_strict_panic_witness :
    fragment `WFOpd` (`C16_print_parse_nested`): parenthesised lists nested to any depth whose operands
    are words, quoted phrases of any characters (printed with escapes) with slop / prefix star, field
    prefixes, bracketed and elastic ranges, sets, `*`, `name:*`, `NOT x`.
-   (5) boosts on items that end with a closing bracket (`C16_print_parse_boosted`).
-   Still open in the ∀ form: boosts directly after a word or a phrase (`a^2`: the remainder class `Rem`
-   after such a leaf would have to admit `^`), escapes inside unquoted words, single-quoted phrases, regex leaves, `name:(group)`, negative
+   (5) boosts on words, phrases, parenthesised lists, bracketed ranges and sets (`C16_print_parse_boosted`).
+   Still open in the ∀ form: boosts after elastic ranges, `*`, `name:*` and `NOT x`, escapes inside unquoted words, single-quoted phrases, regex leaves, `name:(group)`, negative
    numbers, `*` as a range bound, blanks inside elastic ranges, unicode blanks as separators. -/
 /-- **print/parse at leaf level, for all words**: the strict parser (with or without the guard)
     reads a word of ASCII letters and digits that is not `OR`/`AND`/`NOT`/`IN` as the unfielded,
@@ -351,9 +350,10 @@ theorem C16_print_parse_nested (guard : Bool) (lead : Nat) (occ : Option Occur) 
   parseStrictWith_printList guard lead occ o more k ho hm
 
 /-- **print/parse with boosts**: the items of a list (at the top level and inside parenthesised
-    lists, to any depth) may carry a boost `^digits[.digits]` when the boosted operand ends with a
-    closing bracket — a parenthesised list, a bracketed range or a set, the latter two also with a
-    field prefix (`WFB true`); every other item is a well-formed operand of `C16_print_parse_nested`,
+    lists, to any depth) may carry a boost `^digits[.digits]` when the boosted operand is a plain
+    word, a quoted phrase (any characters, optional slop / prefix star), either with a field prefix,
+    a parenthesised list, a bracketed range or a set, the latter two also with a field prefix
+    (`WFB true`); every other item is a well-formed operand of `C16_print_parse_nested`,
     a parenthesised list of such items, or `NOT` of an unboosted one (`WFB false`). The strict parser
     reads the printed text as `rewrite_ast` of the tree the structure denotes, in which a boosted
     operand's tree is wrapped by `applyBoost` with the value the grammar computes from the decimal
@@ -372,8 +372,9 @@ example :
       = ['(', 'a', ')', '^', '2', '.', '5', ' ', '[', 'a', ' ', 'T', 'O', ' ', 'b', ']', '^', '1']
     ∧ g1.leaf = .boost (listTree none (wordOpd ['a']) []) (BoostText.code ⟨25, 1⟩)
     ∧ r1.leaf = (rangeOpd true true ['a'] ['b']).leaf
-    ∧ WFB true g1 ∧ WFB true r1 := by
-  refine ⟨by decide, rfl, rfl, ?_, ?_⟩
+    ∧ WFB true g1 ∧ WFB true r1 ∧ WFB true (boostOpd (wordOpd ['a']) ⟨['2'], []⟩)
+    ∧ (boostOpd (wordOpd ['a']) ⟨['2'], []⟩).text = ['a', '^', '2'] := by
+  refine ⟨by decide, rfl, rfl, ?_, ?_, .boostWord _ ⟨by simp, by decide, by decide⟩ _ ⟨by simp, by decide, by simp⟩, by decide⟩
   · exact .boostGroup 0 none _ [] 0 false (fun _ => false) (.base _ (.word _ ⟨by simp, by decide, by decide⟩))
       (by intro it hi; cases hi) _ ⟨by simp, by decide, by decide⟩
   · exact .boostRange _ _ _ _ ⟨by simp, by decide⟩ ⟨by simp, by decide⟩ _ ⟨by simp, by decide, by simp⟩
